@@ -34,7 +34,7 @@ func runC03(p *core.Program, r *core.Report) {
 	typedPushRule(p, r, e, "R3.7") // every numeric kind a literal can be retyped to is pushed as that kind
 	c03Admission(p, r, e)
 	r.Floor("R3.1", 27+8)
-	stackFieldBalanceRule(p, r, "R3.5", "checker", "visitor", "collections")
+	stackFieldBalanceRule(p, r, "R3.5", "checker", "visitor", "[]reflect.Type")
 	r.Floor("R3.3", 3)
 	r.Floor("R3.5", 23)
 	r.Floor("R3.7", 2)
@@ -314,7 +314,7 @@ func c03Retyping(p *core.Program, r *core.Report, e *engines) {
 		if b, ok := info.TypeOf(fd.Type.Results.List[0].Type).(*types.Basic); !ok || b.Kind() != types.Bool {
 			continue
 		}
-		ops, hasInt, _ := operatorsOfNodeSwitch(info, e.nk, fd)
+		ops, hasInt, _ := operatorsOfNodeSwitch(p, info, e.nk, fd)
 		if hasInt && len(ops) > 0 {
 			predOps, wherePred = ops, core.FuncName("checker", fd)
 		}
